@@ -17,7 +17,7 @@ INVALID = ['!dupsym', '!dupsym2', '!empty', '!nonstr', '!S2', '!V2',
            '!B1again', '!othertype', '!otherdim', '!wrongbase',
            '!wrongcount', '!B3dupref', '!derivebase', '!NB2', '!P2',
            '!dupderive', '!dupterm', '!Pdupsym', '!Sdupsym', '!Pnum',
-           '!Punits']
+           '!Punits', '!numterm', '!numonly']
 QUICK_INVALID = ['!dupsym', '!S2', '!othertype', '!otherdim', '!wrongbase',
                  '!empty', '!dupderive', '!dupterm']
 
@@ -90,7 +90,7 @@ def run(tier, seed):
         plans = [(VALID + INVALID, 2, ROOTS), (VALID + inv[:4], 3, ROOTS)]
     # two unit families in a type without reference unit (own small plan)
     plans.append((['n2', 'n1k', 'n2k', 'nmix', '!nmixbad', 'n1/x0',
-                   '!dupsym'], 6 if tier == 'thorough' else 5, [ROOTS[3]]))
+                   '!dupsym', 'BN', 'x1/n1', 'x1'], 6 if tier == 'thorough' else 5, [ROOTS[3]]))
     plans.append((['B\u2126', 'k\u2126', 'S\u2126', 'k\u2126\u00b2',
                    '!dup\u2126', '?query'], 6 if tier == 'thorough' else 5,
                   [ROOTS[0]]))
